@@ -81,19 +81,35 @@ def check_distribution(M, name, probs, zero_at):
 
 
 @scenario
-def sc_regret_strategies(M, n, limit, plus, node=None):
+def sc_regret_strategies(M, n, limit, plus, node=None, other_first=False):
     """From an arbitrary RMInv state: every current strategy and every average strategy is a probability distribution
-    supported only on viable coalitions not yet revealed at that node."""
+    supported only on viable coalitions not yet revealed at that node, and the current strategy is regret matching on
+    THIS minimiser's regrets (positive parts normalised; uniform over the unused coalitions when none is positive).
+    other_first: another minimiser of the same shape, in a different arbitrary state, is alive and is asked first."""
     rg = M.mod("regret")
     C = M.mod("coalitions").Coalition
     rm = rg.GameRegretMinimizer(n, limit, plus)
-    arbitrary_rm_state(M, rm, plus)
+    R, _S = arbitrary_rm_state(M, rm, plus)
+    other = None
+    if other_first:
+        other = rg.GameRegretMinimizer(n, limit, not plus)
+        arbitrary_rm_state(M, other, not plus, tag="o")
     v = viable(n)
     for node in (range(rm.number_of_regret_minimizers) if node is None else [node]):
         meta = int(rm.meta_rank_to_id[node])
         used = _members(meta)
+        if other is not None:
+            other.regret_matching_strategy(meta)
+            other.get_average_strategy([C(v[a]) for a in used])
         sigma = rm.regret_matching_strategy(meta)
         check_distribution(M, f"current[node={node}]", list(sigma), used)
+        pos = [M.max_([R[node, a], M.const(0)]) for a in range(rm.number_of_coalitions)]
+        total = M.sum_(pos)
+        free = rm.number_of_coalitions - len(used)
+        for a in range(rm.number_of_coalitions):
+            sa = M.val(sigma[a])
+            M.check(f"current[node={node}].is_regret_matching[{a}]",
+                    M.ite(total > 0, sa * total == pos[a], sa * free == (0 if a in used else 1)))
         past = [C(v[a]) for a in used]
         avg = rm.get_average_strategy(past)
         M.check(f"average[node={node}].length", len(avg) == (1 << n))
